@@ -81,10 +81,13 @@ type KnownW struct {
 	ServerNames []string `json:"serverNames"`
 }
 
+// Case: the object submitted for admission; Op "update" = an UPDATE admission whose old object is Prev (Op "" or
+// "create" = a CREATE; a Prev next to it is only the object the gateway applied before).
 type Case struct {
 	Cluster ClusterW  `json:"cluster"`
 	Known   []KnownW  `json:"known"`
 	Prev    *ClusterW `json:"prev"`
+	Op      string    `json:"op"`
 }
 
 func hx(s string) string { return hex.EncodeToString([]byte(s)) }
